@@ -725,6 +725,23 @@ func runCallCase(c callCase, st *callStats) *fail {
 		if !errors.Is(gotErr, linux.Errno(wantErrno)) {
 			return failf(fmt.Sprintf("errno-mapping:%s:%d", c.Err.Style, wantErrno), "%s: the backend failed with a %s error carrying errno %d, the caller got %v", what, c.Err.Style, wantErrno, gotErr)
 		}
+		if c.Follow != "" && c.Method == "Open" {
+			// the failed Open changed nothing: the same call on the same handle
+			// reaches the File again and returns what it returns now
+			cm := r.mock.NCalls()
+			ok := &mockfs.Result{QID: res.QID, IOUnit: res.IOUnit}
+			r.mock.Push("Open", ok)
+			_, _, ferr := recv.Open(p9.OpenFlags(c.Flags))
+			reached := false
+			for _, rc := range r.mock.Calls(cm) {
+				if rc.Op == "Open" && rc.File == recvID {
+					reached = true
+				}
+			}
+			if ferr != nil || !reached {
+				return failf("handle-broken-by-failed-call:Open:retry", "%s failed in the backend (errno %d); the same Open repeated on the same handle returned %v and %s the backend File", what, wantErrno, ferr, map[bool]string{true: "reached", false: "did not reach"}[reached])
+			}
+		}
 		if h2 != nil && c.Method != "Close" {
 			// the failed call changed nothing: another handle on the same entry still
 			// reaches the File it denotes
